@@ -66,6 +66,19 @@ class C10(vlib.Check):
                 self.count("route:" + route)
                 self.count("kind:" + kind)
                 yield case
+            # the exported representation belongs to the caller: whatever is done to it in place afterwards (SciPy's own in-place
+            # canonicalisers, or plain writes into its buffers), the fingerprint it came from still round-trips to itself.  The
+            # lengths at and above 2^31 matter: there the column indices of the exported CSR row have the dtype of the fingerprint's
+            for k in range(24 if self.tier == "quick" else 400):
+                route = rng.choice(["sparse", "sparse", "sparse", "dense"])
+                bits = rng.choice([2 ** 31, 2 ** 32, 2 ** 32, 2 ** 31 - 1, 1024, 64]) if route == "sparse" else rng.choice([7, 64, 1024])
+                kind = rng.choice(KINDS)
+                f = gen_fp(rng, kind, bits)
+                if route == "dense" and kind == "count":
+                    f["cnt"] = [[i, str(min(int(v), 65535))] for i, v in f["cnt"]]
+                self.count("exported-object-edited:" + route)
+                yield {"t": "rt", "route": route, "fp": f, "name": None, "props": {},
+                       "edit": rng.choice(["eliminate_zeros", "reverse", "zero", "sort", "shift"])}
         finally:
             pass
 
@@ -87,6 +100,26 @@ class C10(vlib.Check):
         """Returns (list of result objects, carries_level, carries_props)."""
         r = case["route"]
         cls = f.__class__
+        if case.get("edit"):
+            # a first export, edited in place by its owner; the round trip proper follows
+            v = f.to_vector(sparse=(r == "sparse"))
+            e = case["edit"]
+            if r == "dense":
+                v[...] = 0 if e in ("zero", "eliminate_zeros") else v[..., ::-1].copy()
+            elif e == "eliminate_zeros":
+                v.data[::2] = 0
+                v.eliminate_zeros()
+            elif e == "reverse":
+                v.indices[:] = v.indices[::-1].copy()
+            elif e == "zero":
+                v.indices[:] = 0
+                v.data[:] = 0
+            elif e == "sort":
+                v.indices[:] = v.indices[::-1].copy()
+                v.has_sorted_indices = False
+                v.sort_indices()
+            else:
+                v.indices[:] = (v.indices + 1) % f.bits
         if r == "indices":
             kw = {} if cls is CLS["bit"] else {"counts": dict(f.counts)}
             return [cls.from_indices(f.indices, bits=f.bits, level=f.level, **kw)], True, False
@@ -192,7 +225,7 @@ class C10(vlib.Check):
     def nontrivial(self, case, a_impl):
         if not case["fp"]["idx"] or "ok" not in a_impl.get("res", {}):
             return None
-        return vlib.canon([case["route"], case["fp"]])
+        return vlib.canon([case["route"], case.get("edit"), case["fp"]])
 
 
 if __name__ == "__main__":
